@@ -6,6 +6,7 @@ pub mod alloc;
 pub mod args;
 pub mod bencode;
 pub mod json;
+pub mod lin;
 
 
 pub mod model;
